@@ -49,12 +49,60 @@ def rcs_param_summaries(cfg):
     return summ
 
 
+def is_restart_return(f, e):
+    """`return {}` / nullopt of an optional-returning function, `return false` / `return {}` of a bool try_* function"""
+    ret = f.ret or ''
+    if e.get('e') is None:
+        return False
+    x = f.strip_casts(e['e'])
+    if ret == 'bool' and (f.short or '').startswith('try_'):
+        if isinstance(x, dict) and x.get('k') == 'initlist' and not x.get('args'):
+            return True
+        lits, other = [], []
+        f.walk(x, lambda y: lits.append(y) if y.get('k') == 'bool' else (other.append(y) if y.get('k') in ('ref', 'call', 'member') else None))
+        return bool(lits) and not other and not lits[0].get('v')
+    if ret.startswith('std::optional<'):
+        names = []
+
+        def leaf_(y):
+            k_ = y.get('k')
+            if k_ in ('ref', 'member') and y.get('name') != 'nullopt':
+                names.append(y)
+            elif k_ in ('bool', 'int', 'float', 'str', 'nullptr'):
+                names.append(y)          # a literal is a VALUE (`return false;` of an optional<bool> is "definitely absent")
+            elif k_ == 'call' and y.get('ck') != 'ctor':
+                names.append(y)
+            elif k_ == 'call' and y.get('ck') == 'ctor' and y.get('args') and not (y.get('cls') or '').startswith(('std::optional<', 'std::nullopt_t')):
+                names.append(y)
+        f.walk(x, leaf_)
+        return not names
+    return False
+
+
 def run(cfg, want=('a', 'b')):
     res = RuleResult('LOCK-7', 'read-section typestate: an open section is never overwritten; no validation on an ended/empty/moved-from section')
     summ = rcs_param_summaries(cfg)
+    by_sig = {}
     for f in cfg.functions:
-        if not f.blocks:
-            continue
+        if f.blocks:
+            by_sig.setdefault(f.sig, f)
+    exit_memo = {}
+
+    def exit_states(sig):
+        """{param index: states of a by-reference read-section parameter at the NON-restart returns of the callee}; None when
+        unavailable (no body, recursion). On a restart return the caller returns the restart result itself (LOCK-11) and the
+        section dies with its scope, so the state after a restart return is irrelevant for overwrite / validate sites."""
+        if sig in exit_memo:
+            return exit_memo[sig]
+        exit_memo[sig] = None          # recursion guard
+        g = by_sig.get(sig)
+        if g is None or not any(is_rcs(p['t']) and p.get('byref') and not p.get('constref') for p in g.params):
+            return None
+        out = analyse(g, collect_only=True)
+        exit_memo[sig] = out
+        return out
+
+    def analyse(f, collect_only=False):
         tracked = {p['did']: p['name'] for p in f.params if is_rcs(p['t'])}
         for b, i, e in f.elements():
             if e.get('k') == 'decl':
@@ -62,10 +110,13 @@ def run(cfg, want=('a', 'b')):
                     if is_rcs(v['t']):
                         tracked[v['did']] = v['name']
         if not tracked:
-            continue
-        res.count('functions with read sections')
-        res.functions.add(f.sig)
+            return None
+        if not collect_only:
+            res.count('functions with read sections')
+            res.functions.add(f.sig)
         sites = {}   # (kind, loc, var, op) -> union of states observed at the site
+        exits = {}   # param index -> union of states at non-restart returns
+        pidx = {p['did']: i for i, p in enumerate(f.params) if is_rcs(p['t']) and p.get('byref') and not p.get('constref')}
 
         def see(kind, loc, var, op, cur):
             k = (kind, loc, var, op)
@@ -131,9 +182,22 @@ def run(cfg, want=('a', 'b')):
                             st[src[0]] = frozenset('M')
                     else:
                         cs = f.callee_sig(e)
+                        ex = exit_states(cs) if cs else None
                         for i, a in enumerate(e.get('args', [])):
                             r = f.ref_of(a)
                             if r and r[0] in tracked:
+                                if ex is not None and ex.get(i):
+                                    # per-return summary: the states the callee leaves the section in when it does not restart;
+                                    # 'I' stands for "as it was handed in"
+                                    cur = st.get(r[0], frozenset('U'))
+                                    out_ = set()
+                                    for c_ in ex[i]:
+                                        if c_ == 'I':
+                                            out_ |= set(cur)
+                                        else:
+                                            out_.add(c_)
+                                    st[r[0]] = frozenset(out_)
+                                    continue
                                 s = summ.get(cs, {}).get(i)
                                 if s is None:
                                     continue
@@ -141,6 +205,10 @@ def run(cfg, want=('a', 'b')):
                                     st[r[0]] = frozenset('X')
                                 elif s[0] == 'passes' and not s[1]:
                                     st[r[0]] = frozenset('U')
+                elif k == 'return':
+                    if not is_restart_return(f, e):
+                        for did_, ix in pidx.items():
+                            exits[ix] = exits.get(ix, frozenset()) | st.get(did_, frozenset('U'))
             return st
 
         def refine(st, blk, i):
@@ -167,8 +235,16 @@ def run(cfg, want=('a', 'b')):
             for k, v in b.items():
                 r[k] = r.get(k, frozenset()) | v
             return r
-        init = {p['did']: frozenset('O') for p in f.params if is_rcs(p['t'])}
-        forward(f, init, transfer, refine, join, key=lambda s: tuple(sorted(s.items())))
+        # in the summary run a by-reference parameter starts as 'I' (= whatever the caller handed in)
+        init = {p['did']: frozenset('I' if (collect_only and p['did'] in pidx) else 'O') for p in f.params if is_rcs(p['t'])}
+        inst = forward(f, init, transfer, refine, join, key=lambda s: tuple(sorted(s.items())))
+        if collect_only:
+            if not (f.ret or '').strip() or f.ret == 'void':
+                # no return statements: the state flowing into the exit block
+                if f.exit in inst:
+                    for did_, ix in pidx.items():
+                        exits[ix] = exits.get(ix, frozenset()) | inst[f.exit].get(did_, frozenset('U'))
+            return exits
         NAMES = {'X': 'ended', 'E': 'empty', 'M': 'moved-from'}
         for (kind, loc, var, op), cur in sorted(sites.items(), key=str):
             if kind == 'a' and 'a' in want:
@@ -184,4 +260,8 @@ def run(cfg, want=('a', 'b')):
                 res.ob(not bad, {'rule': 'LOCK-7b', 'function': sh(f.sig)[:140], 'site': fileline(loc), 'section': var, 'op': op, 'states': ''.join(sorted(cur)), 'verdict': 'VIOLATION' if bad else 'discharged'})
                 if bad:
                     res.find(f, loc, '%s on read section `%s` that is certainly %s here' % (op, var, '/'.join(NAMES[c] for c in sorted(cur))), key='7b:%s:%s' % (op, var), config=cfg.name)
+    for f in cfg.functions:
+        if f.blocks:
+            analyse(f)
+    run.last_exit_summaries = exit_memo
     return res
